@@ -452,7 +452,7 @@ mod v_iface_frag_tx {
     // ------------------------------------------------------------------ reassembly through the real ingress path
     // Ghost datagram: protocol 253, 24 symbolic payload bytes, fragments [0,8) [8,16) [16,24), any ident; the frame of
     // each step is an RFC 791 byte template written here.  (A harness with 4 symbolic picks through `process_ip`
-    // ran out of memory at 8 GB, also with 64-byte reassembly buffers: the any-order argument is carried by the
+    // ran out of memory at 8 GB, also with 64-byte reassembly buffers and a fixed ident: the any-order argument is carried by the
     // 1-induction harnesses ipv4_reasm_step_* in iface_frag.rs; here are fixed orders and one arbitrary fragment.)
     const GL: usize = 24;
 
@@ -565,61 +565,6 @@ mod v_iface_frag_tx {
     #[kani::proof]
     pub(crate) fn ipv4_reasm_process_1120() {
         process_fixed([1, 1, 2, 0], 4);
-    }
-
-    // every order and duplication of the three fragments within 4 arrivals, through `process_ip`
-    // @harness props=C12 cfg=KI4 tier=q to=900 mem=8 unwind=12 opts=nomem covers=3 funcs=InterfaceInner::process_ip;InterfaceInner::process_ipv4;PacketAssemblerSet::get;PacketAssembler::set_total_size;PacketAssembler::add;PacketAssembler::assemble;raw::Socket::process bounds=datagram_of_24_payload_bytes_in_3_fragments_of_8;_4_symbolic_picks_(every_order_and_duplication);_symbolic_bytes,_fixed_ident;_raw_socket_as_receiver;_no_expiry
-    #[kani::proof]
-    pub(crate) fn ipv4_reasm_process_any() {
-        ip_iface!(dev, iface, 1500, ChecksumCapabilities::ignored());
-        let g: [u8; GL] = kani::any();
-        let ident: u16 = 0x1234;
-        raw_receiver!(sockets, h);
-        let mut mask = 0u8;
-        let mut over = false;
-        let mut delivered = 0usize;
-        let mut ooo = false;
-        let mut dup = false;
-        macro_rules! step {
-            () => {{
-                let pick: u8 = kani::any();
-                kani::assume(pick < 3);
-                crate::vdump!("pick {}", pick);
-                let bit = 1u8 << pick;
-                dup = dup || mask & bit != 0;
-                ooo = ooo || mask & (bit - 1) != bit - 1;
-                mask |= bit;
-                over = over || runs3(mask) > crate::config::ASSEMBLER_MAX_SEGMENT_COUNT;
-                {
-                    let f = frag_frame(ident, pick, &g);
-                    let reply_none = iface.inner.process_ip(&mut sockets, PacketMeta::default(), &f[..], &mut iface.fragments).is_none();
-                    assert!(reply_none, "prop:c12_reasm_fragment_causes_no_reply");
-                }
-                match sockets.get_mut::<sraw::Socket>(h).recv() {
-                    Ok(b) => {
-                        assert!(mask == 7, "prop:c12_reasm_delivers_only_when_every_byte_present");
-                        assert!(b.len() == IPH + GL, "prop:c12_reasm_delivered_length_exact");
-                        let hh = hdr(&b[..IPH]);
-                        assert!(hh.total == IPH + GL && !hh.mf && hh.off == 0 && hh.proto == 253 && hh.src == REMOTE.octets() && hh.dst == LOCAL.octets(),
-                                "prop:c12_reasm_delivered_header_describes_whole_datagram");
-                        let k = any_lt(GL);
-                        assert!(b[IPH + k] == g[k], "prop:c12_reasm_delivered_bytes_equal_datagram");
-                        mask = 0;
-                        delivered += 1;
-                    }
-                    Err(_) => {
-                        assert!(mask != 7 || over, "prop:c12_reasm_delivers_when_gaps_trackable");
-                    }
-                }
-            }};
-        }
-        step!();
-        step!();
-        step!();
-        step!();
-        kani::cover!(delivered == 1 && ooo, "datagram delivered after out-of-order arrival");
-        kani::cover!(delivered == 1 && dup, "datagram delivered although a fragment was duplicated");
-        kani::cover!(delivered == 0 && mask != 0, "incomplete datagram: nothing delivered");
     }
 
     // One fragment into an empty reassembly set, header fields at boundary values: what `process_ipv4` stores is
